@@ -258,5 +258,6 @@ pub fn subs() -> Vec<Box<dyn DynSub>> {
     vec![
         sub(Sub { name: "c12.pairs", source: Source::Gen(pair_strategy, 4_000_000, 50_000_000), oracle: pair_oracle, known: no_known, hang_is_violation: false }),
         sub(Sub { name: "c12.triples", source: Source::Gen(triple_strategy, 800_000, 8_000_000), oracle: triple_oracle, known: no_known, hang_is_violation: false }),
+        crate::props::fuzzsub::fc12(),
     ]
 }
